@@ -41,16 +41,17 @@ type Thread struct {
 	// blocked inside an operation; U parks the thread when it wakes.
 	desched atomic.Bool
 
-	site     int32 // last hook site
-	opSite   int32 // site of the blocking operation in progress
-	budget   int
-	ready    func() bool
-	deadline time.Duration
-	lockWait bool
-	lastRun  int
-	opSeq    uint64
-	opCur    uint64
-	prio     int
+	site      int32 // last hook site
+	opSite    int32 // site of the blocking operation in progress
+	budget    int
+	ready     func() bool
+	deadline  time.Duration
+	lockWait  bool
+	noPreempt bool
+	lastRun   int
+	opSeq     uint64
+	opCur     uint64
+	prio      int
 
 	Blocks     int // number of times the scheduler found the thread durably blocked in an operation
 	PanicVal   interface{}
@@ -373,16 +374,19 @@ func (s *Sim) pick(elig []*Thread) *Thread {
 	if n == 1 {
 		return elig[0]
 	}
-	idx := s.tape.Decide(n, func(r uint64) int {
-		if s.fair {
-			best := 0
-			for i, th := range elig {
-				if th.lastRun < elig[best].lastRun {
-					best = i
-				}
+	if s.fair {
+		// fair round-robin is a deterministic function of the state and is NOT drawn from the
+		// tape: a shrunk or truncated tape must not be able to turn a settle phase into an unfair
+		// schedule (bounded-liveness verdicts are only meaningful under fairness)
+		best := 0
+		for i, th := range elig {
+			if th.lastRun < elig[best].lastRun {
+				best = i
 			}
-			return best
 		}
+		return elig[best]
+	}
+	idx := s.tape.Decide(n, func(r uint64) int {
 		contIdx := -1
 		if elig[0] == s.last {
 			contIdx = 0
@@ -521,6 +525,9 @@ func (s *Sim) yield(site int32) {
 		runtime.Goexit()
 	}
 	th := s.running
+	if th.noPreempt {
+		return
+	}
 	th.site = site
 	s.yields++
 	if s.yields > s.cfg.MaxYields {
@@ -772,6 +779,15 @@ func (s *Sim) YieldHard() {
 	th := s.running
 	th.site = -1
 	s.park(th)
+}
+
+// NoPreempt runs fn without any preemption point (used by scenarios to apply a configuration as one
+// step, e.g. a chain of setters right after construction). fn must not block.
+func (s *Sim) NoPreempt(fn func()) {
+	th := s.running
+	th.noPreempt = true
+	defer func() { th.noPreempt = false }()
+	fn()
 }
 
 // Self returns the running thread.
